@@ -9,6 +9,7 @@ import (
 	"context"
 	"fmt"
 	"os"
+	"runtime/pprof"
 	"sort"
 	"strings"
 
@@ -129,18 +130,53 @@ func classify(w *world, cmd disruption.Command, res pscheduling.Results, cs []*d
 	return why
 }
 
-// computeCase runs computeConsolidation on cs between two harness simulations and emits the case.
-// It returns the Gallina of (candidates, simulation) for the callers that assemble Single / Multi cases.
-func computeCase(c *kit.Ctx, w *world, cons interface {
+// worldCase collects everything observed in one world; it becomes one CaseWorld (the catalog is shared).
+type worldCase struct {
+	w        *world
+	mode     string
+	computes []string
+	have     map[string]bool // candidate-name lists that have a compute entry
+	single   string
+	multi    string
+	filters  []string
+	kf       string
+	problems []string
+	keys     []string
+}
+
+func newWorldCase(w *world, mode string) *worldCase {
+	return &worldCase{w: w, mode: mode, have: map[string]bool{}, single: "None", multi: "None"}
+}
+
+func (wc *worldCase) emit(c *kit.Ctx) {
+	if len(wc.computes) == 0 && len(wc.filters) == 0 {
+		return
+	}
+	in := caseJSON{Kind: "world:" + wc.mode, World: wc.w.spec, KF: wc.kf}
+	sort.Strings(wc.keys)
+	id := c.AddCase(fmt.Sprintf("CaseWorld %s %s %s %s %s %s", kit.GBool(wc.w.spec.S2S), wc.w.gCatalog(allMinKeys), kit.GList(wc.computes), wc.single, wc.multi, kit.GList(wc.filters)),
+		in, strings.Join(wc.keys, "+"))
+	for _, p := range wc.problems {
+		c.Fail(id, "corr:projection: "+p, "", in)
+	}
+}
+
+var allMinKeys = []string{corev1.LabelInstanceTypeStable, famKey}
+
+type computer interface {
 	VerifComputeConsolidation(context.Context, ...*disruption.Candidate) (disruption.Command, error)
-}, cs []*disruption.Candidate, mk []string, tag string) (simG string, stable bool, cmd disruption.Command) {
+}
+
+// computeCase runs computeConsolidation on cs between two harness simulations and records the observation.
+func computeCase(c *kit.Ctx, wc *worldCase, cons computer, cs []*disruption.Candidate, tag string) (stable bool, cmd disruption.Command) {
+	w := wc.w
 	cn := candSet(cs)
 	res1 := w.simulate(cs...)
 	k1 := w.simKey(res1, cn)
 	simG, problems := w.gSim(res1, cn)
-	kf := ""
 	if unreservedReserved(res1) {
-		kf = kfReserved
+		wc.kf = kfReserved
+		c.Count("shape:unreserved_reserved_offering")
 	}
 	w.recorder.Reset()
 	cmd, err := cons.VerifComputeConsolidation(w.ctx, cs...)
@@ -151,7 +187,7 @@ func computeCase(c *kit.Ctx, w *world, cons interface {
 	res2 := w.simulate(cs...)
 	if k1 != w.simKey(res2, cn) {
 		c.Count("skipped:simulation_not_reproducible")
-		return simG, false, cmd
+		return false, cmd
 	}
 	obsG, p2 := w.gObs(cmd, cs)
 	problems = append(problems, p2...)
@@ -161,16 +197,12 @@ func computeCase(c *kit.Ctx, w *world, cons interface {
 			problems = append(problems, "requirements other than capacity-type / zone / reservation-id changed")
 		}
 	}
-	in := caseJSON{Kind: "compute:" + tag, World: w.spec, Cands: names(cs), KF: kf}
 	c.Count("compute/" + tag + ":" + branch)
-	if kf != "" {
-		c.Count("shape:unreserved_reserved_offering")
-	}
-	id := c.AddCase(fmt.Sprintf("CaseCompute %s %s %s %s %s", kit.GBool(w.spec.S2S), w.gCatalog(mk), w.gCands(cs), simG, obsG), in, "compute:"+branch+fmt.Sprint(len(cs) > 1))
-	for _, p := range problems {
-		c.Fail(id, "corr:projection: "+p, "", in)
-	}
-	return simG, true, cmd
+	wc.keys = append(wc.keys, fmt.Sprintf("%s/%d", branch, len(cs)))
+	wc.computes = append(wc.computes, fmt.Sprintf("(mkWC %s %s %s)", w.gCands(cs), simG, obsG))
+	wc.have[strings.Join(names(cs), ",")] = true
+	wc.problems = append(wc.problems, problems...)
+	return true, cmd
 }
 
 func bigBudget(w *world) map[string]int {
@@ -181,81 +213,58 @@ func bigBudget(w *world) map[string]int {
 	return m
 }
 
-func worldMinKeys(w *world) []string {
-	// the keys that can carry minValues in this world (NodePool requirements)
-	set := map[string]bool{}
-	for _, p := range w.spec.Pools {
-		switch p.MinKey {
-		case "it":
-			set[corev1.LabelInstanceTypeStable] = true
-		case "fam":
-			set[famKey] = true
-		}
-	}
-	return kit.SortedKeys(set)
-}
-
 func runSingle(c *kit.Ctx, g genOut) {
 	w := newWorld(g.spec)
+	wc := newWorldCase(w, g.mode)
 	cons := disruption.MakeConsolidation(w.clk, w.cluster, w.c, w.prov, w.cp, w.recorder, w.queue)
 	meth := disruption.NewSingleNodeConsolidation(cons, disruption.WithValidator(passValidator{}))
 	cs := w.candidatesWith(meth.ShouldDisrupt, meth.Class())
-	mk := worldMinKeys(w)
 	c.Count(fmt.Sprintf("world/%s:candidates=%d", g.mode, len(cs)))
-	var tried []string
 	allStable := true
 	for _, cd := range cs {
-		simG, stable, _ := computeCase(c, w, &cons, []*disruption.Candidate{cd}, mk, g.mode)
+		stable, _ := computeCase(c, wc, &cons, []*disruption.Candidate{cd}, g.mode)
 		allStable = allStable && stable
-		tried = append(tried, kit.GPair(w.gCand(cd), simG))
 	}
-	if len(cs) == 0 || !allStable {
-		return
-	}
-	// end to end: the candidate loop
-	cmds, err := meth.ComputeCommands(w.ctx, bigBudget(w), cs...)
-	if err != nil {
-		panic(fmt.Sprintf("single ComputeCommands: %v", err))
-	}
-	out := "None"
-	key := "single:none"
-	var problems []string
-	if len(cmds) > 1 {
-		problems = append(problems, "more than one command")
-	}
-	if len(cmds) == 1 {
-		if len(cmds[0].Candidates) != 1 {
-			problems = append(problems, "single-node command with several candidates")
+	var cmds []disruption.Command
+	if len(cs) > 0 && allStable {
+		// end to end: the candidate loop
+		var err error
+		tried := names(cs)
+		cmds, err = meth.ComputeCommands(w.ctx, bigBudget(w), cs...)
+		if err != nil {
+			panic(fmt.Sprintf("single ComputeCommands: %v", err))
 		}
-		obsG, p2 := w.gObs(cmds[0], cmds[0].Candidates)
-		problems = append(problems, p2...)
-		out = fmt.Sprintf("(Some (%s, %s))", kit.GStr(cmds[0].Candidates[0].Name()), obsG)
-		key = "single:" + string(cmds[0].Decision())
-	}
-	kf := ""
-	for _, cd := range cs {
-		if unreservedReserved(w.simulate(cd)) {
-			kf = kfReserved
+		out := "None"
+		key := "single:none"
+		if len(cmds) > 1 {
+			wc.problems = append(wc.problems, "more than one command")
 		}
+		if len(cmds) == 1 {
+			if len(cmds[0].Candidates) != 1 {
+				wc.problems = append(wc.problems, "single-node command with several candidates")
+			}
+			obsG, p2 := w.gObs(cmds[0], cmds[0].Candidates)
+			wc.problems = append(wc.problems, p2...)
+			out = fmt.Sprintf("(Some (%s, %s))", gs(cmds[0].Candidates[0].Name()), obsG)
+			key = "single:" + string(cmds[0].Decision())
+		}
+		c.Count("method/" + key)
+		wc.keys = append(wc.keys, key)
+		wc.single = fmt.Sprintf("(Some (%s, %s))", gstrs(tried), out)
 	}
-	in := caseJSON{Kind: "single", World: w.spec, Cands: names(cs), KF: kf}
-	c.Count("method/" + key)
-	id := c.AddCase(fmt.Sprintf("CaseSingle %s %s %s %s", kit.GBool(w.spec.S2S), w.gCatalog(mk), kit.GList(tried), out), in, key+fmt.Sprint(len(cs)))
-	for _, p := range problems {
-		c.Fail(id, "corr:projection: "+p, "", in)
-	}
+	wc.emit(c)
 	// validation of the proposal against a re-simulation after the world moved on
 	if len(cmds) == 1 {
-		runValidate(c, w, cmds[0], mk)
+		runValidate(c, w, cmds[0])
 	}
 }
 
 func runMulti(c *kit.Ctx, g genOut) {
 	w := newWorld(g.spec)
+	wc := newWorldCase(w, "multi")
 	cons := disruption.MakeConsolidation(w.clk, w.cluster, w.c, w.prov, w.cp, w.recorder, w.queue)
 	meth := disruption.NewMultiNodeConsolidation(cons, disruption.WithValidator(passValidator{}))
 	cs := w.candidatesWith(meth.ShouldDisrupt, meth.Class())
-	mk := worldMinKeys(w)
 	c.Count(fmt.Sprintf("world/multi:candidates=%d", len(cs)))
 	if len(cs) < 2 {
 		return
@@ -265,48 +274,41 @@ func runMulti(c *kit.Ctx, g genOut) {
 	if err != nil {
 		panic(fmt.Sprintf("multi ComputeCommands: %v", err))
 	}
-	var sims []string
-	kf := ""
+	allStable := true
 	for k := 2; k <= len(cs); k++ {
-		simG, stable, _ := computeCase(c, w, &cons, cs[:k], mk, "multi")
-		if !stable {
-			return
-		}
-		if unreservedReserved(w.simulate(cs[:k]...)) {
-			kf = kfReserved
-		}
-		sims = append(sims, simG)
+		stable, _ := computeCase(c, wc, &cons, cs[:k], "multi")
+		allStable = allStable && stable
 	}
-	out := "None"
-	key := "multi:none"
-	var problems []string
-	if len(cmds) == 1 {
-		k := len(cmds[0].Candidates)
-		got := strings.Join(names(cmds[0].Candidates), ",")
-		if k > len(cs) || got != strings.Join(names(cs[:k]), ",") {
-			problems = append(problems, "multi-node command is not a prefix of the sorted candidates: "+got)
-			k = 0
+	if allStable {
+		out := "None"
+		key := "multi:none"
+		if len(cmds) == 1 {
+			k := len(cmds[0].Candidates)
+			got := strings.Join(names(cmds[0].Candidates), ",")
+			if k > len(cs) || got != strings.Join(names(cs[:k]), ",") {
+				wc.problems = append(wc.problems, "multi-node command is not a prefix of the sorted candidates: "+got)
+				k = 0
+			}
+			obsG, p2 := w.gObs(cmds[0], cmds[0].Candidates)
+			wc.problems = append(wc.problems, p2...)
+			out = fmt.Sprintf("(Some (%d%%nat, %s))", k, obsG)
+			key = fmt.Sprintf("multi:%s:%d_of_%d", cmds[0].Decision(), k, len(cs))
 		}
-		obsG, p2 := w.gObs(cmds[0], cmds[0].Candidates)
-		problems = append(problems, p2...)
-		out = fmt.Sprintf("(Some (%d%%nat, %s))", k, obsG)
-		key = fmt.Sprintf("multi:%s:%d_of_%d", cmds[0].Decision(), k, len(cs))
-	}
-	in := caseJSON{Kind: "multi", World: w.spec, Cands: names(cs), KF: kf}
-	c.Count("method/" + key)
-	id := c.AddCase(fmt.Sprintf("CaseMulti %s %s %s %s %s", kit.GBool(w.spec.S2S), w.gCatalog(mk), w.gCands(cs), kit.GList(sims), out), in, key)
-	for _, p := range problems {
-		c.Fail(id, "corr:projection: "+p, "", in)
+		c.Count("method/" + key)
+		wc.keys = append(wc.keys, key)
+		wc.multi = fmt.Sprintf("(Some (%s, %s))", gstrs(names(cs)), out)
 	}
 	// filterOutSameInstanceType directly, on synthetic replacements over this world's candidates
-	runFilter(c, w, cs, mk)
+	runFilter(c, wc, cs)
+	wc.emit(c)
 	if len(cmds) == 1 {
-		runValidate(c, w, cmds[0], mk)
+		runValidate(c, w, cmds[0])
 	}
 }
 
 // runFilter calls filterOutSameInstanceType with replacements made of catalog subsets and generated requirements.
-func runFilter(c *kit.Ctx, w *world, cs []*disruption.Candidate, mk []string) {
+func runFilter(c *kit.Ctx, wc *worldCase, cs []*disruption.Candidate) {
+	w := wc.w
 	r := c.Rand
 	for rep := 0; rep < 2; rep++ {
 		k := r.Range(1, len(cs))
@@ -317,16 +319,15 @@ func runFilter(c *kit.Ctx, w *world, cs []*disruption.Candidate, mk []string) {
 				opts = append(opts, it)
 			}
 		}
-		reqs := genReqs(r, mk, len(opts))
-		in := caseJSON{Kind: "filter_out_same_type", World: w.spec, Cands: names(sub), Extra: map[string]interface{}{"options": itNames(opts), "requirements": reqs.String()}}
+		reqs := genReqs(r, len(opts))
 		before := gReqs(reqs)
-		optNames := kit.GStrs(itNames(opts))
+		optNames := gstrs(itNames(opts))
 		repl := &disruption.Replacement{NodeClaim: &pscheduling.NodeClaim{NodeClaimTemplate: pscheduling.NodeClaimTemplate{Requirements: reqs, InstanceTypeOptions: append(cloudprovider.InstanceTypes(nil), opts...)}}}
 		got, err := disruption.VerifFilterOutSameInstanceType(repl, sub)
 		out := "None"
 		key := "filter:error"
 		if err == nil {
-			out = "(Some " + kit.GStrs(itNames(got.InstanceTypeOptions)) + ")"
+			out = "(Some " + gstrs(itNames(got.InstanceTypeOptions)) + ")"
 			switch {
 			case len(got.InstanceTypeOptions) == 0:
 				key = "filter:none_left"
@@ -337,12 +338,13 @@ func runFilter(c *kit.Ctx, w *world, cs []*disruption.Candidate, mk []string) {
 			}
 		}
 		c.Count("unit/" + key)
-		c.AddCase(fmt.Sprintf("CaseFilter %s %s %s %s %s", w.gCatalog(mk), w.gCands(sub), before, optNames, out), in, key)
+		wc.keys = append(wc.keys, key)
+		wc.filters = append(wc.filters, fmt.Sprintf("(%s, %s, %s, %s)", w.gCands(sub), before, optNames, out))
 	}
 }
 
 // genReqs: a requirement map as a NodeClaim could carry it after scheduling.
-func genReqs(r *kit.Rand, mk []string, nopts int) scheduling.Requirements {
+func genReqs(r *kit.Rand, nopts int) scheduling.Requirements {
 	reqs := scheduling.NewRequirements()
 	switch r.Intn(8) {
 	case 0, 1:
@@ -390,7 +392,7 @@ func genReqs(r *kit.Rand, mk []string, nopts int) scheduling.Requirements {
 
 // runValidate: let the world move on after a proposal (nothing / an option becomes unavailable / a pod appears /
 // a pending pod that needs its own node), then compare validateCommand with the model on the re-simulation.
-func runValidate(c *kit.Ctx, w *world, cmd disruption.Command, mk []string) {
+func runValidate(c *kit.Ctx, w *world, cmd disruption.Command) {
 	r := c.Rand
 	change := "none"
 	switch r.Intn(5) {
@@ -464,16 +466,16 @@ func runValidate(c *kit.Ctx, w *world, cmd disruption.Command, mk []string) {
 	in := caseJSON{Kind: "validate", World: w.spec, Cands: names(cur), Extra: map[string]interface{}{"change": change, "replacement": repl}}
 	key := fmt.Sprintf("validate:%s:valid=%v", change, err == nil)
 	c.Count("unit/" + key)
-	id := c.AddCase(fmt.Sprintf("CaseValidate %d%%nat %s %s %s %s", len(cmd.Replacements), kit.GStrs(repl), w.gCatalog(mk), simG, kit.GBool(err == nil)), in, key)
+	id := c.AddCase(fmt.Sprintf("CaseValidate %d%%nat %s %s %s %s", len(cmd.Replacements), gstrs(repl), w.gCatalog(allMinKeys), simG, kit.GBool(err == nil)), in, key)
 	for _, p := range problems {
 		c.Fail(id, "corr:projection: "+p, "", in)
 	}
 }
 
-func runEmpty(c *kit.Ctx, g genOut) {
+func runEmpty(c *kit.Ctx, g genOut, forceReal bool) {
 	w := newWorld(g.spec)
 	cons := disruption.MakeConsolidation(w.clk, w.cluster, w.c, w.prov, w.cp, w.recorder, w.queue)
-	real := c.Rand.Bool()
+	real := c.Rand.Bool() || forceReal
 	var val disruption.Validator = passValidator{}
 	if real {
 		val = nowValidator{inner: disruption.NewEmptinessValidator(cons)}
@@ -509,7 +511,7 @@ func runEmpty(c *kit.Ctx, g genOut) {
 	if kf != "" {
 		c.Count("shape:empty_node_with_pods")
 	}
-	c.AddCase(fmt.Sprintf("CaseEmpty %s %s", given, kit.GStrs(sel)), caseJSON{Kind: "emptiness", World: w.spec, Cands: names(cs), KF: kf, Extra: map[string]bool{"real_validator": real}}, key+kf)
+	c.AddCase(fmt.Sprintf("CaseEmpty %s %s", given, gstrs(sel)), caseJSON{Kind: "emptiness", World: w.spec, Cands: names(cs), KF: kf, Extra: map[string]bool{"real_validator": real}}, key+kf)
 }
 
 // ---- pure units
@@ -534,12 +536,12 @@ func genOfferings(r *kit.Rand) cloudprovider.Offerings {
 func runUnits(c *kit.Ctx, n int) {
 	r := c.Rand
 	for i := 0; i < n; i++ {
-		reqs := genReqs(r, nil, 3)
+		reqs := genReqs(r, 3)
 		ofs := genOfferings(r)
 		wlp := ofs.WorstLaunchPrice(reqs)
 		okey := "None"
 		if co := ofs.Available().Compatible(reqs); len(co) > 0 {
-			okey = "(Some " + kit.GZ(units(co.Cheapest().Price)) + ")"
+			okey = "(Some " + gz(units(co.Cheapest().Price)) + ")"
 		}
 		compat := make([]string, len(ofs))
 		for j, o := range ofs {
@@ -561,7 +563,7 @@ func runUnits(c *kit.Ctx, n int) {
 	}
 	// OrderByPrice on small lists
 	for i := 0; i < n/3; i++ {
-		reqs := genReqs(r, nil, 3)
+		reqs := genReqs(r, 3)
 		var its cloudprovider.InstanceTypes
 		for j := r.Range(2, 7); j > 0; j-- {
 			its = append(its, &cloudprovider.InstanceType{Name: fmt.Sprintf("o%d", j), Offerings: genOfferings(r)})
@@ -569,7 +571,7 @@ func runUnits(c *kit.Ctx, n int) {
 		cat := kit.GListOf(its, func(it *cloudprovider.InstanceType) string { return gInstanceType(it, nil) })
 		sorted := its.OrderByPrice(reqs)
 		c.Count("unit/order_by_price")
-		c.AddCase(fmt.Sprintf("CaseOrder %s %s %s", gReqs(reqs), cat, kit.GStrs(itNames(sorted))), caseJSON{Kind: "order_by_price", Extra: reqs.String()}, "")
+		c.AddCase(fmt.Sprintf("CaseOrder %s %s %s", gReqs(reqs), cat, gstrs(itNames(sorted))), caseJSON{Kind: "order_by_price", Extra: reqs.String()}, "")
 	}
 	// EvictionCost at the clamp and zero boundaries
 	dels := []int64{0, 1, -1, -134217728, -134217727, -134217729, 134217728, 2147483647, -2147483647, -2147483648, 1207959552, 1207959551, 1207959553, -1476395008, -1476395007, -1476395009}
@@ -582,13 +584,18 @@ func runUnits(c *kit.Ctx, n int) {
 			pod.Spec.Priority = &pp
 			cost := disruptionutils.EvictionCost(context.Background(), pod)
 			c.Count("unit/eviction_cost")
-			c.AddCase(fmt.Sprintf("CaseEvict %s %s %s", kit.GZ(d), kit.GZ(int64(p)), kit.GZ(evictionUnits(cost))), caseJSON{Kind: "eviction_cost", Extra: []int64{d, int64(p)}}, "")
+			c.AddCase(fmt.Sprintf("CaseEvict %s %s %s", gz(d), gz(int64(p)), gz(evictionUnits(cost))), caseJSON{Kind: "eviction_cost", Extra: []int64{d, int64(p)}}, "")
 		}
 	}
 }
 
 func main() {
 	c := kit.Parse("C06", os.Args[1:])
+	if f := os.Getenv("C06_PROF"); f != "" {
+		pf, _ := os.Create(f)
+		_ = pprof.StartCPUProfile(pf)
+		defer pprof.StopCPUProfile()
+	}
 	c.Meta.Rule = "worlds: generated catalogs (zones x capacity types x prices at / next to the candidate price sums x availability x reserved offerings), " +
 		"NodePools (capacity-type requirement, minValues), candidate nodes with pods (eviction costs at / next to zero), sinks, deleting nodes, pending pods; " +
 		"the real computeConsolidation / Single / Multi / Emptiness ComputeCommands / validateCommand / filterOutSameInstanceType vs the model fed with the harness's own SimulateScheduling result; oracle on every emitted command"
@@ -613,8 +620,8 @@ func main() {
 	}}
 	// constants
 	wk := []string{kit.GBool(v1.WellKnownLabels.Has(v1.CapacityTypeLabelKey)), kit.GBool(v1.WellKnownLabels.Has(corev1.LabelTopologyZone)), kit.GBool(v1.WellKnownLabels.Has(cloudprovider.ReservationIDLabel))}
-	c.AddCase(fmt.Sprintf("CaseConst %s %s %s", kit.GStrs([]string{v1.CapacityTypeLabelKey, corev1.LabelTopologyZone, cloudprovider.ReservationIDLabel, v1.CapacityTypeReserved, v1.CapacityTypeSpot, v1.CapacityTypeOnDemand}),
-		kit.GList(wk), kit.GZ(disruption.MinInstanceTypesForSpotToSpotConsolidation)), caseJSON{Kind: "constants"}, "")
+	c.AddCase(fmt.Sprintf("CaseConst %s %s %s", gstrs([]string{v1.CapacityTypeLabelKey, corev1.LabelTopologyZone, cloudprovider.ReservationIDLabel, v1.CapacityTypeReserved, v1.CapacityTypeSpot, v1.CapacityTypeOnDemand}),
+		kit.GList(wk), gz(disruption.MinInstanceTypesForSpotToSpotConsolidation)), caseJSON{Kind: "constants"}, "")
 
 	scale := 1
 	if c.Thorough() {
@@ -634,7 +641,7 @@ func main() {
 			case "multi":
 				runMulti(c, genWorld(r, "multi"))
 			case "empty":
-				runEmpty(c, genWorld(r, "empty"))
+				runEmpty(c, genWorld(r, "empty"), false)
 			default:
 				runSingle(c, genWorld(r, p.mode))
 			}
@@ -642,5 +649,5 @@ func main() {
 		}
 	}
 	runProbes(c)
-	c.Finish("From KV Require Import C06.Model C06.Spec C06.Check.", "case", "check_all", 250)
+	c.Finish("From KV Require Import C06.Model C06.Spec C06.Check.", "case", "check_all", 90)
 }
